@@ -31,7 +31,7 @@ import (
 
 // Case is one replayable input.
 type Case struct {
-	Kind string `json:"kind"` // doc | execute | ws | arith | conn
+	Kind string `json:"kind"` // doc | execute | ws | arith | conn | history
 	// doc / execute
 	Query   string            `json:"query,omitempty"`
 	OpName  string            `json:"op_name,omitempty"`
@@ -44,6 +44,9 @@ type Case struct {
 	B  int    `json:"b,omitempty"`
 	// conn
 	Total int `json:"total,omitempty"`
+	// history
+	Config APIConfig `json:"config,omitempty"`
+	Steps  []HStep   `json:"steps,omitempty"`
 	Note  string `json:"note,omitempty"`
 }
 
@@ -718,6 +721,8 @@ func (h *harness) replayCase(c Case, verbose bool) *failure {
 		return h.connOne(c, verbose)
 	case "ws":
 		return h.wsOne(c, verbose)
+	case "history":
+		return h.historyOne(c, verbose)
 	default:
 		p, skip := h.prepare(c)
 		if skip != "" {
@@ -787,6 +792,7 @@ func main() {
 	h.executePath(run.Scale(250, 4000))
 	h.connections()
 	h.wsPath(run.Scale(60, 600))
+	h.histories(run.Scale(250, 5000))
 	for _, w := range h.apis {
 		w.close()
 	}
